@@ -27,7 +27,7 @@ BASE = dict(N=64, rec="id1", fs=2.0, win="kaiser", psll=200.0, olap=0.5, order=0
             scheduler="vectorized_ltf", backend="numba", band=None, mode="auto", force=False)
 VARIATIONS = [
     ("fs", 1.0), ("fs", 250.0), ("psll", 80.0), ("win", "hann"), ("win", "callable_a"), ("win", "callable_b"), ("olap", 0.0),
-    ("olap", "default"), ("order", -1), ("order", 2), ("Jdes", 30), ("Kdes", 16), ("Kdes", 1), ("bmin", 2.0), ("Lmin", 8),
+    ("olap", "default"), ("order", -1), ("order", 1), ("order", 2), ("Jdes", 30), ("Kdes", 16), ("Kdes", 1), ("bmin", 2.0), ("Lmin", 8),
     ("scheduler", "ltf"), ("scheduler", "lpsd"), ("scheduler", "new_ltf"), ("backend", "numpy"), ("band", (0.2, 0.8)),
     ("mode", "cross"), ("N", 65), ("rec", "id3"),
 ]
